@@ -257,8 +257,12 @@ pub fn run_c07(cfg: &Cfg, rep: &mut Report) {
 }
 
 pub fn c08_alphabet(full: bool, channel: u8) -> Vec<Ev> {
+    c08_alphabet_v(full, channel, &[0, 1, 127])
+}
+
+pub fn c08_alphabet_v(full: bool, channel: u8, abstract_values: &[u8]) -> Vec<Ev> {
     let mut a = Vec::new();
-    let values: Vec<u8> = if full { (0..128).collect() } else { vec![0, 1, 127] };
+    let values: Vec<u8> = if full { (0..128).collect() } else { abstract_values.to_vec() };
     for n in 0u8..64 {
         for &v in &values {
             a.push(Ev::cc(channel, n, v));
@@ -285,8 +289,15 @@ pub fn c08_alphabet(full: bool, channel: u8) -> Vec<Ev> {
 pub fn run_c08(cfg: &Cfg, rep: &mut Report) {
     rep.rule("fixpoint exploration of (real scanner x history oracle) on one channel: quick alphabet = all 64 contributing controller numbers x values {0,1,127} + non-contributing representatives + other-channel traffic + reset; thorough (release build) = the full alphabet 64x128; plus seeded random histories over the full short-message alphabet on 16 channels; a history is non-trivial when the scanner reported at least once; distinct_nontrivial counts explorer states plus random histories with a report (random histories are seeded independently; collisions are not deduplicated but astronomically unlikely at length >= 5)");
     let full = cfg.thorough && cfg.release && !cfg.as_c18;
-    for channel in if cfg.as_c18 { vec![3u8] } else { vec![0u8, 15] } {
-        let alpha = c08_alphabet(full, channel);
+    let pairs = crate::util::value_pairs(cfg, 0xC08, 3);
+    let mut runs: Vec<(u8, Vec<u8>)> = if cfg.as_c18 { vec![(3u8, vec![0, 1, 127])] } else { vec![(0u8, vec![0, 1, 127]), (15u8, vec![0, 1, 127])] };
+    if !cfg.as_c18 && !full {
+        for (i, p) in pairs.iter().enumerate().skip(1) {
+            runs.push((crate::util::rotating_channel(cfg, i), vec![p[0], p[1], p[0] ^ 0x40]));
+        }
+    }
+    for (channel, vals) in runs {
+        let alpha = c08_alphabet_v(full, channel, &vals);
         let (st, _) = explore(cfg, Cc14Mon::new(), &alpha, 1 << 22, rep, false);
         rep.states += st.states;
         rep.transitions += st.transitions;
@@ -298,7 +309,7 @@ pub fn run_c08(cfg: &Cfg, rep: &mut Report) {
             rep.inconclusive("C08 explorer did not reach a fixpoint within the state bound");
         }
         rep.notes.insert(
-            format!("explorer_channel_{}", channel),
+            format!("explorer_channel_{}_values_{:?}", channel, if full { vec![] } else { vals.clone() }),
             json!({"states":st.states,"transitions":st.transitions,"depth":st.depth,"fixpoint_reached":st.fixpoint,"alphabet":alpha.len(),"full_alphabet":full}),
         );
     }
